@@ -356,3 +356,183 @@ ROUND5_MUTANTS = [
 ]
 TWINS = TWINS + ROUND5_TWINS
 MUTANTS = MUTANTS + ROUND5_MUTANTS
+
+# ---------------------------------------------------------------------------------------------------------------------
+# round 6 (stress of the rules added in the detection rounds - R16.2 removal pairing, R16.8, R16.9, R16.6 presence
+# clause - with fresh refactorings in ordinary maintainer style): each twin is a shape that tripped a rule at first
+# (or sits next to one), each mutant a defect planted in that shape
+ROUND6_TWINS = [
+    {"name": 'remove-matching-list-first', "edits": [
+        (S, '        key = header.lower()\n        if key not in self._set:\n            raise KeyError(header)\n        self._set.remove(key)\n        for idx, item in enumerate(self._headers):\n            if item.lower() == key:\n                del self._headers[idx]\n                break\n        if self.on_update is not None:\n            self.on_update(self)\n', '        key = header.lower()\n        if key not in self._set:\n            raise KeyError(header)\n        self._set.remove(key)\n        matches = [item for item in self._headers if item.lower() == key]\n        if matches:\n            self._headers.remove(matches[0])\n        if self.on_update is not None:\n            self.on_update(self)\n'),
+    ]},
+    {"name": 'headerset-to_header-separator-constant', "edits": [
+        (S, 'class HeaderSet(cabc.MutableSet[str]):', '_SEPARATOR = ", "\n\n\nclass HeaderSet(cabc.MutableSet[str]):'),
+        (S, '        return ", ".join(map(http.quote_header_value, self._headers))\n', '        return _SEPARATOR.join(map(http.quote_header_value, self._headers))\n'),
+    ]},
+    {"name": 'set-property-callback-text-local', "edits": [
+        (R, '        def on_update(header_set: HeaderSet) -> None:\n            if not header_set and name in self.headers:\n                del self.headers[name]\n            elif header_set:\n                self.headers[name] = header_set.to_header()\n', '        def on_update(header_set: HeaderSet) -> None:\n            text = header_set.to_header() if header_set else None\n            if text is not None:\n                self.headers[name] = text\n            elif name in self.headers:\n                del self.headers[name]\n'),
+    ]},
+    {"name": 'remove-index-via-find-then-pop', "edits": [
+        (S, '        key = header.lower()\n        if key not in self._set:\n            raise KeyError(header)\n        self._set.remove(key)\n        for idx, item in enumerate(self._headers):\n            if item.lower() == key:\n                del self._headers[idx]\n                break\n        if self.on_update is not None:\n            self.on_update(self)\n', '        key = header.lower()\n        if key not in self._set:\n            raise KeyError(header)\n        position = self.find(header)\n        self._set.remove(key)\n        if position >= 0:\n            self._headers.pop(position)\n        if self.on_update is not None:\n            self.on_update(self)\n'),
+    ]},
+    {"name": 'remove-while-index-loop', "edits": [
+        (S, '        key = header.lower()\n        if key not in self._set:\n            raise KeyError(header)\n        self._set.remove(key)\n        for idx, item in enumerate(self._headers):\n            if item.lower() == key:\n                del self._headers[idx]\n                break\n        if self.on_update is not None:\n            self.on_update(self)\n', '        key = header.lower()\n        if key not in self._set:\n            raise KeyError(header)\n        self._set.remove(key)\n        idx = 0\n        while idx < len(self._headers):\n            if self._headers[idx].lower() == key:\n                del self._headers[idx]\n                break\n            idx += 1\n        if self.on_update is not None:\n            self.on_update(self)\n'),
+    ]},
+    {"name": 'remove-extract-drop-from-list-helper', "edits": [
+        (S, '        key = header.lower()\n        if key not in self._set:\n            raise KeyError(header)\n        self._set.remove(key)\n        for idx, item in enumerate(self._headers):\n            if item.lower() == key:\n                del self._headers[idx]\n                break\n        if self.on_update is not None:\n            self.on_update(self)\n', '        key = header.lower()\n        if key not in self._set:\n            raise KeyError(header)\n        self._set.remove(key)\n        self._drop_from_list(key)\n        if self.on_update is not None:\n            self.on_update(self)\n\n    def _drop_from_list(self, key: str) -> None:\n        for idx, item in enumerate(self._headers):\n            if item.lower() == key:\n                del self._headers[idx]\n                return\n'),
+    ]},
+    {"name": 'setitem-key-locals-reordered', "edits": [
+        (S, '        old = self._headers[idx]\n        self._set.remove(old.lower())\n        self._headers[idx] = value\n        self._set.add(value.lower())\n        if self.on_update is not None:\n            self.on_update(self)\n', '        old_key = self._headers[idx].lower()\n        new_key = value.lower()\n        self._headers[idx] = value\n        self._set.remove(old_key)\n        self._set.add(new_key)\n        if self.on_update is not None:\n            self.on_update(self)\n'),
+    ]},
+    {"name": 'clear-del-slice-and-set-rebuild', "edits": [
+        (S, '        self._set.clear()\n        self._headers.clear()\n\n        if self.on_update is not None:\n            self.on_update(self)\n', '        del self._headers[:]\n        self._set = set()\n\n        if self.on_update is not None:\n            self.on_update(self)\n'),
+    ]},
+    {"name": 'headerset-bool-if-empty-return-false', "edits": [
+        (S, '        return bool(self._set)\n', '        if not self._set:\n            return False\n        return True\n'),
+    ]},
+    {"name": 'accessor-get-single-exit-result-local', "edits": [
+        (I, '        if instance is None:\n            return self\n\n        storage = self.lookup(instance)\n\n        if self.name not in storage:\n            return self.default  # type: ignore\n\n        value = storage[self.name]\n\n        if self.load_func is not None:\n            try:\n                return self.load_func(value)\n            except (ValueError, TypeError):\n                return self.default  # type: ignore\n\n        return value  # type: ignore\n', '        if instance is None:\n            return self\n\n        storage = self.lookup(instance)\n        result = self.default\n\n        if self.name in storage:\n            value = storage[self.name]\n\n            if self.load_func is None:\n                result = value\n            else:\n                try:\n                    result = self.load_func(value)\n                except (ValueError, TypeError):\n                    pass\n\n        return result  # type: ignore\n'),
+    ]},
+    {"name": 'accessor-get-merged-condition', "edits": [
+        (I, '        if instance is None:\n            return self\n\n        storage = self.lookup(instance)\n\n        if self.name not in storage:\n            return self.default  # type: ignore\n\n        value = storage[self.name]\n\n        if self.load_func is not None:\n            try:\n                return self.load_func(value)\n            except (ValueError, TypeError):\n                return self.default  # type: ignore\n\n        return value  # type: ignore\n', '        if instance is None:\n            return self\n\n        storage = self.lookup(instance)\n        present = self.name in storage\n\n        if present and self.load_func is None:\n            return storage[self.name]  # type: ignore\n\n        if not present:\n            return self.default  # type: ignore\n\n        try:\n            return self.load_func(storage[self.name])\n        except (ValueError, TypeError):\n            return self.default  # type: ignore\n'),
+    ]},
+    {"name": 'cache-control-callback-name-constant', "edits": [
+        (R, '        def on_update(cache_control: _CacheControl) -> None:\n            if not cache_control and "cache-control" in self.headers:\n                del self.headers["cache-control"]\n            elif cache_control:\n                self.headers["Cache-Control"] = cache_control.to_header()\n', '        header_name = "Cache-Control"\n\n        def on_update(cache_control: _CacheControl) -> None:\n            if cache_control:\n                self.headers[header_name] = cache_control.to_header()\n            elif header_name in self.headers:\n                del self.headers[header_name]\n'),
+        (R, '            self.headers.get("cache-control"), on_update, ResponseCacheControl', '            self.headers.get(header_name), on_update, ResponseCacheControl'),
+    ]},
+    {"name": 'headers-set-index-search-next', "edits": [
+        (HD, '        iter_list = iter(self._list)\n        ikey = key.lower()\n\n        for idx, (old_key, _) in enumerate(iter_list):\n            if old_key.lower() == ikey:\n                # replace first occurrence\n                self._list[idx] = (key, value_str)\n                break\n        else:\n            # no existing occurrences\n            self._list.append((key, value_str))\n            return\n\n        # remove remaining occurrences\n        self._list[idx + 1 :] = [t for t in iter_list if t[0].lower() != ikey]\n', '        ikey = key.lower()\n        first = next((i for i, (k, _) in enumerate(self._list) if k.lower() == ikey), None)\n\n        if first is None:\n            self._list.append((key, value_str))\n            return\n\n        self._list[first] = (key, value_str)\n        tail = [t for t in self._list[first + 1 :] if t[0].lower() != ikey]\n        self._list[first + 1 :] = tail\n'),
+    ]},
+    {"name": 'headers-del-key-folded-local-filter', "edits": [
+        (HD, '        key = key.lower()\n        new = []\n\n        for k, v in self._list:\n            if k.lower() != key:\n                new.append((k, v))\n\n        self._list[:] = new\n', '        folded = key.lower()\n        self._list[:] = filter(lambda item: item[0].lower() != folded, self._list)\n'),
+    ]},
+    {"name": 'remove-lowered-list-index', "edits": [
+        (S, '        key = header.lower()\n        if key not in self._set:\n            raise KeyError(header)\n        self._set.remove(key)\n        for idx, item in enumerate(self._headers):\n            if item.lower() == key:\n                del self._headers[idx]\n                break\n        if self.on_update is not None:\n            self.on_update(self)\n', '        key = header.lower()\n        if key not in self._set:\n            raise KeyError(header)\n        self._set.remove(key)\n        lowered = [item.lower() for item in self._headers]\n        if key in lowered:\n            del self._headers[lowered.index(key)]\n        if self.on_update is not None:\n            self.on_update(self)\n'),
+    ]},
+    {"name": 'remove-zip-count', "edits": [
+        (S, '        key = header.lower()\n        if key not in self._set:\n            raise KeyError(header)\n        self._set.remove(key)\n        for idx, item in enumerate(self._headers):\n            if item.lower() == key:\n                del self._headers[idx]\n                break\n        if self.on_update is not None:\n            self.on_update(self)\n', '        key = header.lower()\n        if key not in self._set:\n            raise KeyError(header)\n        self._set.remove(key)\n        for idx, item in zip(range(len(self._headers)), self._headers):\n            if item.lower() == key:\n                del self._headers[idx]\n                break\n        if self.on_update is not None:\n            self.on_update(self)\n'),
+    ]},
+    {"name": 'setitem-skip-set-when-same-key', "edits": [
+        (S, '        old = self._headers[idx]\n        self._set.remove(old.lower())\n        self._headers[idx] = value\n        self._set.add(value.lower())\n        if self.on_update is not None:\n            self.on_update(self)\n', '        old = self._headers[idx]\n        self._headers[idx] = value\n        if old.lower() != value.lower():\n            self._set.remove(old.lower())\n            self._set.add(value.lower())\n        if self.on_update is not None:\n            self.on_update(self)\n'),
+    ]},
+    {"name": 'headerset-to_header-append-loop', "edits": [
+        (S, '        return ", ".join(map(http.quote_header_value, self._headers))\n', '        parts = []\n        for item in self._headers:\n            parts.append(http.quote_header_value(item))\n        return ", ".join(parts)\n'),
+    ]},
+    {"name": 'set-property-callback-len-test', "edits": [
+        (R, '        def on_update(header_set: HeaderSet) -> None:\n            if not header_set and name in self.headers:\n                del self.headers[name]\n            elif header_set:\n                self.headers[name] = header_set.to_header()\n', '        def on_update(header_set: HeaderSet) -> None:\n            if len(header_set) == 0:\n                if name in self.headers:\n                    del self.headers[name]\n            else:\n                self.headers[name] = header_set.to_header()\n'),
+    ]},
+    {"name": 'headers-same-name-helper', "edits": [
+        (HD, 'class Headers:', 'def _same_name(stored: str, folded: str) -> bool:\n    return stored.lower() == folded\n\n\nclass Headers:'),
+        (HD, '        for k, v in self._list:\n            if k.lower() == ikey:\n                return v\n\n        raise BadRequestKeyError(key)\n\n    def __eq__', '        for k, v in self._list:\n            if _same_name(k, ikey):\n                return v\n\n        raise BadRequestKeyError(key)\n\n    def __eq__'),
+        (HD, '            if old_key.lower() == ikey:\n                # replace first occurrence', '            if _same_name(old_key, ikey):\n                # replace first occurrence'),
+        (HD, '[t for t in iter_list if t[0].lower() != ikey]', '[t for t in iter_list if not _same_name(t[0], ikey)]'),
+    ]},
+    {"name": 'remove-reuses-delitem', "edits": [
+        (S, '        key = header.lower()\n        if key not in self._set:\n            raise KeyError(header)\n        self._set.remove(key)\n        for idx, item in enumerate(self._headers):\n            if item.lower() == key:\n                del self._headers[idx]\n                break\n        if self.on_update is not None:\n            self.on_update(self)\n', '        key = header.lower()\n        if key not in self._set:\n            raise KeyError(header)\n        del self[self.find(header)]\n'),
+    ]},
+    {"name": 'delitem-one-liner-discard', "edits": [
+        (S, '        rv = self._headers.pop(idx)\n        self._set.remove(rv.lower())\n        if self.on_update is not None:\n            self.on_update(self)\n', '        self._set.discard(self._headers.pop(idx).lower())\n        if self.on_update is not None:\n            self.on_update(self)\n'),
+    ]},
+    {"name": 'accessor-get-fetch-helper-flag-tuple', "edits": [
+        (I, '        if instance is None:\n            return self\n\n        storage = self.lookup(instance)\n\n        if self.name not in storage:\n            return self.default  # type: ignore\n\n        value = storage[self.name]\n\n        if self.load_func is not None:\n            try:\n                return self.load_func(value)\n            except (ValueError, TypeError):\n                return self.default  # type: ignore\n\n        return value  # type: ignore\n', '        if instance is None:\n            return self\n\n        found, value = self._fetch(self.lookup(instance))\n\n        if not found:\n            return self.default  # type: ignore\n\n        if self.load_func is not None:\n            try:\n                return self.load_func(value)\n            except (ValueError, TypeError):\n                return self.default  # type: ignore\n\n        return value  # type: ignore\n\n    def _fetch(self, storage: t.Any) -> tuple[bool, t.Any]:\n        if self.name in storage:\n            return True, storage[self.name]\n        return False, None\n'),
+    ]},
+    {"name": 'set-property-writeback-module-helper', "edits": [
+        (R, 'def _set_property(name: str, doc: str | None = None) -> property:\n', 'def _write_back(headers: Headers, name: str, header_set: HeaderSet) -> None:\n    if not header_set and name in headers:\n        del headers[name]\n    elif header_set:\n        headers[name] = header_set.to_header()\n\n\ndef _set_property(name: str, doc: str | None = None) -> property:\n'),
+        (R, '        def on_update(header_set: HeaderSet) -> None:\n            if not header_set and name in self.headers:\n                del self.headers[name]\n            elif header_set:\n                self.headers[name] = header_set.to_header()\n', '        def on_update(header_set: HeaderSet) -> None:\n            _write_back(self.headers, name, header_set)\n'),
+    ]},
+    {"name": 'csp-getter-shared-private-helper', "edits": [
+        (R, '        def on_update(csp: ContentSecurityPolicy) -> None:\n            if not csp:\n                del self.headers["content-security-policy"]\n            else:\n                self.headers["Content-Security-Policy"] = csp.to_header()\n\n        rv = parse_csp_header(self.headers.get("content-security-policy"), on_update)\n        if rv is None:\n            rv = ContentSecurityPolicy(None, on_update=on_update)\n        return rv\n', '        return self._csp_view("Content-Security-Policy")\n\n    def _csp_view(self, header: str) -> ContentSecurityPolicy:\n        def on_update(csp: ContentSecurityPolicy) -> None:\n            if not csp:\n                del self.headers[header]\n            else:\n                self.headers[header] = csp.to_header()\n\n        rv = parse_csp_header(self.headers.get(header), on_update)\n        if rv is None:\n            rv = ContentSecurityPolicy(None, on_update=on_update)\n        return rv\n'),
+    ]},
+    {"name": 'headers-set-replace-first-helper', "edits": [
+        (HD, '        iter_list = iter(self._list)\n        ikey = key.lower()\n\n        for idx, (old_key, _) in enumerate(iter_list):\n            if old_key.lower() == ikey:\n                # replace first occurrence\n                self._list[idx] = (key, value_str)\n                break\n        else:\n            # no existing occurrences\n            self._list.append((key, value_str))\n            return\n\n        # remove remaining occurrences\n        self._list[idx + 1 :] = [t for t in iter_list if t[0].lower() != ikey]\n', '        ikey = key.lower()\n        idx = self._index_of(ikey)\n\n        if idx < 0:\n            self._list.append((key, value_str))\n            return\n\n        self._list[idx] = (key, value_str)\n        self._list[idx + 1 :] = [t for t in self._list[idx + 1 :] if t[0].lower() != ikey]\n\n    def _index_of(self, ikey: str) -> int:\n        for idx, (old_key, _) in enumerate(self._list):\n            if old_key.lower() == ikey:\n                return idx\n        return -1\n'),
+    ]},
+    {"name": 'cache-value-remove-first', "edits": [
+        (CC, '        if type is bool:\n            if value:\n                self[key] = None\n            else:\n                self.pop(key, None)\n        elif value is None or value is False:\n            self.pop(key, None)\n        elif value is True:\n            self[key] = None\n        else:\n            if type is not None:\n                value = type(value)\n\n            self[key] = str(value)\n', '        remove = not value if type is bool else (value is None or value is False)\n\n        if remove:\n            self.pop(key, None)\n            return\n\n        if type is bool or value is True:\n            self[key] = None\n            return\n\n        if type is not None:\n            value = type(value)\n\n        self[key] = str(value)\n'),
+    ]},
+]
+ROUND6_MUTANTS = [
+    {"name": 'shape:matching-list-on-raw-header', "expect": 'R16.2', "edits": [
+        (S, '        key = header.lower()\n        if key not in self._set:\n            raise KeyError(header)\n        self._set.remove(key)\n        for idx, item in enumerate(self._headers):\n            if item.lower() == key:\n                del self._headers[idx]\n                break\n        if self.on_update is not None:\n            self.on_update(self)\n', '        key = header.lower()\n        if key not in self._set:\n            raise KeyError(header)\n        self._set.remove(key)\n        matches = [item for item in self._headers if item.lower() == header]\n        if matches:\n            self._headers.remove(matches[0])\n        if self.on_update is not None:\n            self.on_update(self)\n'),
+    ]},
+    {"name": 'shape:matching-list-of-other-elements', "expect": 'R16.2', "edits": [
+        (S, '        key = header.lower()\n        if key not in self._set:\n            raise KeyError(header)\n        self._set.remove(key)\n        for idx, item in enumerate(self._headers):\n            if item.lower() == key:\n                del self._headers[idx]\n                break\n        if self.on_update is not None:\n            self.on_update(self)\n', '        key = header.lower()\n        if key not in self._set:\n            raise KeyError(header)\n        self._set.remove(key)\n        matches = [item for item in self._headers if item.lower() != key]\n        if matches:\n            self._headers.remove(matches[0])\n        if self.on_update is not None:\n            self.on_update(self)\n'),
+    ]},
+    {"name": 'shape:separator-constant-join-or-star', "expect": 'R16.9', "edits": [
+        (S, 'class HeaderSet(cabc.MutableSet[str]):', '_SEPARATOR = ", "\n\n\nclass HeaderSet(cabc.MutableSet[str]):'),
+        (S, '        return ", ".join(map(http.quote_header_value, self._headers))\n', '        return _SEPARATOR.join(map(http.quote_header_value, self._headers)) or "*"\n'),
+    ]},
+    {"name": 'shape:text-local-condition-inverted', "expect": 'R16.5', "edits": [
+        (R, '        def on_update(header_set: HeaderSet) -> None:\n            if not header_set and name in self.headers:\n                del self.headers[name]\n            elif header_set:\n                self.headers[name] = header_set.to_header()\n', '        def on_update(header_set: HeaderSet) -> None:\n            text = header_set.to_header() if not header_set else None\n            if text is not None:\n                self.headers[name] = text\n            elif name in self.headers:\n                del self.headers[name]\n'),
+    ]},
+    {"name": 'shape:text-local-never-deletes', "expect": 'R16.5', "edits": [
+        (R, '        def on_update(header_set: HeaderSet) -> None:\n            if not header_set and name in self.headers:\n                del self.headers[name]\n            elif header_set:\n                self.headers[name] = header_set.to_header()\n', '        def on_update(header_set: HeaderSet) -> None:\n            text = header_set.to_header() if header_set else None\n            if text is not None:\n                self.headers[name] = text\n'),
+    ]},
+    {"name": 'shape:lowered-index-of-reversed-list', "expect": 'R16.2', "edits": [
+        (S, '        key = header.lower()\n        if key not in self._set:\n            raise KeyError(header)\n        self._set.remove(key)\n        for idx, item in enumerate(self._headers):\n            if item.lower() == key:\n                del self._headers[idx]\n                break\n        if self.on_update is not None:\n            self.on_update(self)\n', '        key = header.lower()\n        if key not in self._set:\n            raise KeyError(header)\n        self._set.remove(key)\n        lowered = [item.lower() for item in reversed(self._headers)]\n        if key in lowered:\n            del self._headers[lowered.index(key)]\n        if self.on_update is not None:\n            self.on_update(self)\n'),
+    ]},
+    {"name": 'shape:lowered-index-off-by-one', "expect": 'R16.2', "edits": [
+        (S, '        key = header.lower()\n        if key not in self._set:\n            raise KeyError(header)\n        self._set.remove(key)\n        for idx, item in enumerate(self._headers):\n            if item.lower() == key:\n                del self._headers[idx]\n                break\n        if self.on_update is not None:\n            self.on_update(self)\n', '        key = header.lower()\n        if key not in self._set:\n            raise KeyError(header)\n        self._set.remove(key)\n        lowered = [item.lower() for item in self._headers]\n        if key in lowered:\n            del self._headers[lowered.index(key) - 1]\n        if self.on_update is not None:\n            self.on_update(self)\n'),
+    ]},
+    {"name": 'shape:zip-index-against-reversed', "expect": 'R16.2', "edits": [
+        (S, '        key = header.lower()\n        if key not in self._set:\n            raise KeyError(header)\n        self._set.remove(key)\n        for idx, item in enumerate(self._headers):\n            if item.lower() == key:\n                del self._headers[idx]\n                break\n        if self.on_update is not None:\n            self.on_update(self)\n', '        key = header.lower()\n        if key not in self._set:\n            raise KeyError(header)\n        self._set.remove(key)\n        for idx, item in zip(range(len(self._headers)), reversed(self._headers)):\n            if item.lower() == key:\n                del self._headers[idx]\n                break\n        if self.on_update is not None:\n            self.on_update(self)\n'),
+    ]},
+    {"name": 'shape:same-key-test-inverted', "expect": 'R16.2', "edits": [
+        (S, '        old = self._headers[idx]\n        self._set.remove(old.lower())\n        self._headers[idx] = value\n        self._set.add(value.lower())\n        if self.on_update is not None:\n            self.on_update(self)\n', '        old = self._headers[idx]\n        self._headers[idx] = value\n        if old.lower() == value.lower():\n            self._set.remove(old.lower())\n            self._set.add(value.lower())\n        if self.on_update is not None:\n            self.on_update(self)\n'),
+    ]},
+    {"name": 'shape:same-key-test-on-raw-text', "expect": 'R16.2', "edits": [
+        (S, '        old = self._headers[idx]\n        self._set.remove(old.lower())\n        self._headers[idx] = value\n        self._set.add(value.lower())\n        if self.on_update is not None:\n            self.on_update(self)\n', '        old = self._headers[idx]\n        self._headers[idx] = value\n        if old != value.lower():\n            self._set.remove(old.lower())\n            self._set.add(value.lower())\n        if self.on_update is not None:\n            self.on_update(self)\n'),
+    ]},
+    {"name": 'shape:append-loop-starts-non-empty', "expect": 'R16.9', "edits": [
+        (S, '        return ", ".join(map(http.quote_header_value, self._headers))\n', '        parts = ["*"]\n        for item in self._headers:\n            parts.append(http.quote_header_value(item))\n        return ", ".join(parts)\n'),
+    ]},
+    {"name": 'shape:len-test-inverted', "expect": 'R16.5', "edits": [
+        (R, '        def on_update(header_set: HeaderSet) -> None:\n            if not header_set and name in self.headers:\n                del self.headers[name]\n            elif header_set:\n                self.headers[name] = header_set.to_header()\n', '        def on_update(header_set: HeaderSet) -> None:\n            if len(header_set) != 0:\n                if name in self.headers:\n                    del self.headers[name]\n            else:\n                self.headers[name] = header_set.to_header()\n'),
+    ]},
+    {"name": 'shape:same-name-helper-raw', "expect": 'R16.8', "edits": [
+        (HD, 'class Headers:', 'def _same_name(stored: str, folded: str) -> bool:\n    return stored == folded\n\n\nclass Headers:'),
+        (HD, '        for k, v in self._list:\n            if k.lower() == ikey:\n                return v\n\n        raise BadRequestKeyError(key)\n\n    def __eq__', '        for k, v in self._list:\n            if _same_name(k, ikey):\n                return v\n\n        raise BadRequestKeyError(key)\n\n    def __eq__'),
+        (HD, '            if old_key.lower() == ikey:\n                # replace first occurrence', '            if _same_name(old_key, ikey):\n                # replace first occurrence'),
+        (HD, '[t for t in iter_list if t[0].lower() != ikey]', '[t for t in iter_list if not _same_name(t[0], ikey)]'),
+    ]},
+    {"name": 'shape:find-then-pop-previous', "expect": 'R16.2', "edits": [
+        (S, '        key = header.lower()\n        if key not in self._set:\n            raise KeyError(header)\n        self._set.remove(key)\n        for idx, item in enumerate(self._headers):\n            if item.lower() == key:\n                del self._headers[idx]\n                break\n        if self.on_update is not None:\n            self.on_update(self)\n', '        key = header.lower()\n        if key not in self._set:\n            raise KeyError(header)\n        position = self.find(header)\n        self._set.remove(key)\n        if position >= 0:\n            self._headers.pop(position - 1)\n        if self.on_update is not None:\n            self.on_update(self)\n'),
+    ]},
+    {"name": 'shape:drop-helper-compares-raw', "expect": 'R16.2', "edits": [
+        (S, '        key = header.lower()\n        if key not in self._set:\n            raise KeyError(header)\n        self._set.remove(key)\n        for idx, item in enumerate(self._headers):\n            if item.lower() == key:\n                del self._headers[idx]\n                break\n        if self.on_update is not None:\n            self.on_update(self)\n', '        key = header.lower()\n        if key not in self._set:\n            raise KeyError(header)\n        self._set.remove(key)\n        self._drop_from_list(key)\n        if self.on_update is not None:\n            self.on_update(self)\n\n    def _drop_from_list(self, key: str) -> None:\n        for idx, item in enumerate(self._headers):\n            if item == key:\n                del self._headers[idx]\n                return\n'),
+    ]},
+    {"name": 'shape:fetch-helper-flag-on-truthiness', "expect": 'R16.6', "edits": [
+        (I, '        if instance is None:\n            return self\n\n        storage = self.lookup(instance)\n\n        if self.name not in storage:\n            return self.default  # type: ignore\n\n        value = storage[self.name]\n\n        if self.load_func is not None:\n            try:\n                return self.load_func(value)\n            except (ValueError, TypeError):\n                return self.default  # type: ignore\n\n        return value  # type: ignore\n', '        if instance is None:\n            return self\n\n        found, value = self._fetch(self.lookup(instance))\n\n        if not found:\n            return self.default  # type: ignore\n\n        if self.load_func is not None:\n            try:\n                return self.load_func(value)\n            except (ValueError, TypeError):\n                return self.default  # type: ignore\n\n        return value  # type: ignore\n\n    def _fetch(self, storage: t.Any) -> tuple[bool, t.Any]:\n        if storage.get(self.name):\n            return True, storage[self.name]\n        return False, None\n'),
+    ]},
+    {"name": 'shape:single-exit-needs-truthy-item', "expect": 'R16.6', "edits": [
+        (I, '        if instance is None:\n            return self\n\n        storage = self.lookup(instance)\n\n        if self.name not in storage:\n            return self.default  # type: ignore\n\n        value = storage[self.name]\n\n        if self.load_func is not None:\n            try:\n                return self.load_func(value)\n            except (ValueError, TypeError):\n                return self.default  # type: ignore\n\n        return value  # type: ignore\n', '        if instance is None:\n            return self\n\n        storage = self.lookup(instance)\n        result = self.default\n\n        if self.name in storage and storage[self.name]:\n            value = storage[self.name]\n\n            if self.load_func is None:\n                result = value\n            else:\n                try:\n                    result = self.load_func(value)\n                except (ValueError, TypeError):\n                    pass\n\n        return result  # type: ignore\n'),
+    ]},
+    {"name": 'shape:writeback-helper-never-deletes', "expect": 'R16.5', "edits": [
+        (R, 'def _set_property(name: str, doc: str | None = None) -> property:\n', 'def _write_back(headers: Headers, name: str, header_set: HeaderSet) -> None:\n    if header_set:\n        headers[name] = header_set.to_header()\n\n\ndef _set_property(name: str, doc: str | None = None) -> property:\n'),
+        (R, '        def on_update(header_set: HeaderSet) -> None:\n            if not header_set and name in self.headers:\n                del self.headers[name]\n            elif header_set:\n                self.headers[name] = header_set.to_header()\n', '        def on_update(header_set: HeaderSet) -> None:\n            _write_back(self.headers, name, header_set)\n'),
+    ]},
+    {"name": 'shape:writeback-helper-adds', "expect": 'R16.8', "edits": [
+        (R, 'def _set_property(name: str, doc: str | None = None) -> property:\n', 'def _write_back(headers: Headers, name: str, header_set: HeaderSet) -> None:\n    if not header_set and name in headers:\n        del headers[name]\n    elif header_set:\n        headers.add(name, header_set.to_header())\n\n\ndef _set_property(name: str, doc: str | None = None) -> property:\n'),
+        (R, '        def on_update(header_set: HeaderSet) -> None:\n            if not header_set and name in self.headers:\n                del self.headers[name]\n            elif header_set:\n                self.headers[name] = header_set.to_header()\n', '        def on_update(header_set: HeaderSet) -> None:\n            _write_back(self.headers, name, header_set)\n'),
+    ]},
+    {"name": 'shape:csp-helper-writes-fixed-header', "expect": 'R16.5', "edits": [
+        (R, '        def on_update(csp: ContentSecurityPolicy) -> None:\n            if not csp:\n                del self.headers["content-security-policy"]\n            else:\n                self.headers["Content-Security-Policy"] = csp.to_header()\n\n        rv = parse_csp_header(self.headers.get("content-security-policy"), on_update)\n        if rv is None:\n            rv = ContentSecurityPolicy(None, on_update=on_update)\n        return rv\n', '        return self._csp_view("Content-Security-Policy")\n\n    def _csp_view(self, header: str) -> ContentSecurityPolicy:\n        def on_update(csp: ContentSecurityPolicy) -> None:\n            if not csp:\n                del self.headers[header]\n            else:\n                self.headers["Content-Security-Policy-Report-Only"] = csp.to_header()\n\n        rv = parse_csp_header(self.headers.get(header), on_update)\n        if rv is None:\n            rv = ContentSecurityPolicy(None, on_update=on_update)\n        return rv\n'),
+    ]},
+    {"name": 'shape:index-of-helper-raw-name', "expect": 'R16.8', "edits": [
+        (HD, '        iter_list = iter(self._list)\n        ikey = key.lower()\n\n        for idx, (old_key, _) in enumerate(iter_list):\n            if old_key.lower() == ikey:\n                # replace first occurrence\n                self._list[idx] = (key, value_str)\n                break\n        else:\n            # no existing occurrences\n            self._list.append((key, value_str))\n            return\n\n        # remove remaining occurrences\n        self._list[idx + 1 :] = [t for t in iter_list if t[0].lower() != ikey]\n', '        ikey = key.lower()\n        idx = self._index_of(ikey)\n\n        if idx < 0:\n            self._list.append((key, value_str))\n            return\n\n        self._list[idx] = (key, value_str)\n        self._list[idx + 1 :] = [t for t in self._list[idx + 1 :] if t[0].lower() != ikey]\n\n    def _index_of(self, ikey: str) -> int:\n        for idx, (old_key, _) in enumerate(self._list):\n            if old_key == ikey:\n                return idx\n        return -1\n'),
+    ]},
+    {"name": 'shape:remove-first-forgets-false', "expect": 'R16.6', "edits": [
+        (CC, '        if type is bool:\n            if value:\n                self[key] = None\n            else:\n                self.pop(key, None)\n        elif value is None or value is False:\n            self.pop(key, None)\n        elif value is True:\n            self[key] = None\n        else:\n            if type is not None:\n                value = type(value)\n\n            self[key] = str(value)\n', '        remove = not value if type is bool else (value is None)\n\n        if remove:\n            self.pop(key, None)\n            return\n\n        if type is bool or value is True:\n            self[key] = None\n            return\n\n        if type is not None:\n            value = type(value)\n\n        self[key] = str(value)\n'),
+    ]},
+    {"name": 'shape:delitem-one-liner-raw', "expect": 'R16.2', "edits": [
+        (S, '        rv = self._headers.pop(idx)\n        self._set.remove(rv.lower())\n        if self.on_update is not None:\n            self.on_update(self)\n', '        self._set.discard(self._headers.pop(idx))\n        if self.on_update is not None:\n            self.on_update(self)\n'),
+    ]},
+    {"name": 'shape:name-constant-callback-other-header', "expect": 'R16.5', "edits": [
+        (R, '        def on_update(cache_control: _CacheControl) -> None:\n            if not cache_control and "cache-control" in self.headers:\n                del self.headers["cache-control"]\n            elif cache_control:\n                self.headers["Cache-Control"] = cache_control.to_header()\n', '        header_name = "Cache-Control"\n\n        def on_update(cache_control: _CacheControl) -> None:\n            if cache_control:\n                self.headers["Pragma"] = cache_control.to_header()\n            elif header_name in self.headers:\n                del self.headers[header_name]\n'),
+        (R, '            self.headers.get("cache-control"), on_update, ResponseCacheControl', '            self.headers.get(header_name), on_update, ResponseCacheControl'),
+    ]},
+    {"name": 'shape:bool-if-empty-on-length-one', "expect": 'R16.9', "edits": [
+        (S, '        return bool(self._set)\n', '        if len(self._set) < 2:\n            return False\n        return True\n'),
+    ]},
+]
+TWINS = TWINS + ROUND6_TWINS
+MUTANTS = MUTANTS + ROUND6_MUTANTS
